@@ -278,7 +278,10 @@ class C08Run(object):
             bound += (n + 2) * (o.get('graceful_timeout', 0.3) + 0.1) + \
                 (n + 1) * o.get('warmup_delay', 0)
         bound += self.cfg.get('warmup_delay', 0) * (len(
-            self.cfg['watchers']) + 1) + 2 * self.cfg.get('check_delay', 1.0)
+            self.cfg['watchers']) + 1) + \
+            min(2.0, 2 * self.cfg.get('check_delay', 1.0))
+        # (the period of the check is no part of it: a shutdown does not wait
+        # for the next periodic check to come round)
         self.bound = bound
 
         def deadline():
@@ -344,6 +347,12 @@ class C08Run(object):
                           kind=kind)
         if self.trigger_t is None:
             # no shutdown was requested: the run ends at the cap
+            self.aborted = 'no_shutdown'
+            return
+        if w.sim.capped and not self.deadline_hit and \
+                w.sim.now - self.trigger_t < self.bound:
+            # the run ended (cap on virtual time) before the shutdown had
+            # had its time: nothing to judge
             self.aborted = 'no_shutdown'
             return
         if self.deadline_hit or w.sim.capped:
@@ -486,6 +495,9 @@ class C08(Prop):
                                warmup=[0, 0, 1, 2], grace=[0, 0.05, 0.3, 1.0],
                                singleton_p=0.1)
         cfg['warmup_delay'] = rng.choice([0, 0, 1])
+        if rng.random() < 0.15:
+            # a daemon that sleeps for a long time between two checks
+            cfg['check_delay'] = 60.0
         cfg['sockets'] = [{'kind': rng.choice(['inet', 'unix'])}
                           for _ in range(rng.choice([0, 1, 2]))]
         cfg['pidfile'] = rng.random() < 0.85
